@@ -23,6 +23,7 @@ RULE = (
     "numpy's first-occurrence index. non-trivial = the array has a repeated value, mixed signs, or >= 2 elements along "
     "a reduced axis."
 )
+LEVEL_TEXT += (" Also: every call repeated with all plain integer arguments as numpy integers; where= for any/all/sum/prod, keepdims for argmax/argmin/count_nonzero, initial= for amax/amin/sum/prod, inner beyond vectors, negative and fractional powers, coarse isclose tolerances; and the numeric division functions enumerated over all 8x8 dtype pairs x 3 divisor forms with edge values, integers compared exactly beyond 2**53.")
 ASSUMPTIONS = [
     "numpy's result on the raw arrays is the specification",
     "a case numpy itself rejects is discarded and counted",
